@@ -807,6 +807,16 @@ def run_vm_iteration(impl, case):
         bad.append(('vm-iteration-does-not-terminate', 'visited {!r}'.format(visited)))
     if len(set(visited)) != len(visited):
         bad.append(('vm-iteration-visits-twice', 'visited {!r}'.format(visited)))
+    if expired_midway:
+        # "the nearest REMAINING name in that direction": what is visited after the refresh is in
+        # the directory as the refresh left it
+        for v in visited[gone_after:]:
+            if v not in remaining:
+                bad.append(('vm-iteration-visits-vanished',
+                            'iterating {} {}: after {} visit(s) a refresh left {!r}, yet the next steps '
+                            'yielded {!r}'.format(what, 'forward' if forward else 'backward', gone_after,
+                                                  remaining, visited[gone_after:])))
+                break
     for v in remaining:
         if v in at_start and visited.count(v) != 1:
             bad.append(('vm-iteration-misses-remaining',
